@@ -402,6 +402,16 @@ func genVal(t *rapid.T) Val {
 			b = math.Float64bits(rapid.SampledFrom([]float64{math.MaxFloat64, -math.MaxFloat64, 1e308, -1.5e308, 9.9e307, 1.7e308}).Draw(t, "huge"))
 			break
 		}
+		if rapid.Bool().Draw(t, "bigint") {
+			// integer-valued floats between 2^53 and 2^64: their shortest decimal form is often an
+			// exact tie between two neighbours when it is read back
+			f := float64(rapid.Uint64Range(1<<53, 1<<63).Draw(t, "bigintv"))
+			if rapid.Bool().Draw(t, "negbig") {
+				f = -f
+			}
+			b = math.Float64bits(f)
+			break
+		}
 		b = math.Float64bits(float64(int64(1)<<53 + int64(rapid.IntRange(-1, 1).Draw(t, "p53"))))
 	case 7:
 		if rapid.Bool().Draw(t, "shortmant") {
